@@ -40,7 +40,7 @@ COMPONENTS = {"real": ["TunnelEndpoint (send, set_anonymity, set_tunnel_communit
 ASSUMPTIONS = ["while anonymity is switched off for a prefix its packets may use the raw socket (that is what the switch means)"]
 REACH = ["anon_send_no_circuit_queued", "anon_send_over_ready_circuit", "queue_overflow", "detached_drop", "plain_raw_ok",
          "circuit_closing_with_queue", "net_anon_delivered_via_exit", "net_hop_crashed", "wrong_circuit_not_used",
-         "second_endpoint_same_prefix", "net_blind_exit_circuit_ready", "service_with_statistics", "service_without_statistics", "anonymized_overlay_restarted"]
+         "second_endpoint_same_prefix", "net_blind_exit_circuit_ready", "service_with_statistics", "service_without_statistics", "anonymized_overlay_restarted", "circuits_removed_right_after_send_with_backlog"]
 
 ALPHA = "APRWCXDTNYQO"
 ANON_PREFIX = b"\x00\x02" + b"\xa1" * 20
@@ -80,8 +80,11 @@ def _net_case(seed: int) -> dict:
     ops = []
     for _ in range(rng.choice([6, 12, 30])):
         ops.append(rng.choices(["anon", "plain", "build", "wait", "remove", "crash_hop", "detach", "attach", "anon_off", "anon_on",
-                                "burst", "hops2", "hops1", "build_blind", "other_off", "other_send", "reload"],
-                               [30, 12, 8, 14, 8, 4, 4, 5, 3, 4, 3, 2, 3, 5, 3, 5, 4])[0])
+                                "burst", "hops2", "hops1", "build_blind", "other_off", "other_send", "reload", "anon_then_remove"],
+                               [30, 12, 8, 14, 8, 4, 4, 5, 3, 4, 3, 2, 3, 5, 3, 5, 4, 4])[0])
+    if rng.random() < 0.2:
+        # a backlog held back while there is no circuit, then a circuit, then a send directly followed by giving the circuit up
+        ops = ["burst", "build", "wait", "wait", "anon_then_remove", *ops[:6]]
     return {"scenario": "net", "seed": seed, "ops": ops,
             "knobs": {"lat_jit": rng.choice([0.0, 0.05]), "loss": rng.choice([0.0, 0.0, 0.1]), "timer_jitter": rng.choice([0.0, 0.001])}}
 
@@ -432,6 +435,17 @@ def run_net(c: Case, case: dict) -> dict:  # noqa: C901, PLR0915
                 if not tc.find_circuits(exit_flags=[PEER_FLAG_EXIT_IPV8], hops=me.endpoint.hops) and me.endpoint.tunnel_community:
                     world.probe("anon_send_no_circuit_queued")
                     c.nontrivial("net/anon_without_circuit/" + "".join(o[0] for o in sends[-5:]))
+            elif op == "anon_then_remove":
+                # the overlay sends and, in the same loop iteration, every circuit is given up (e.g. by the handler of a destroy that
+                # was already waiting): whatever the endpoint still has to write out for that send must not use those circuits
+                pkt = me.call(anon.create_introduction_request, target.address)
+                me.call(anon.endpoint.send, target.address, pkt)
+                if me.endpoint.send_queue:
+                    world.probe("circuits_removed_right_after_send_with_backlog")
+                for cid in sorted(tc.circuits):
+                    removing.add(cid)
+                    me.call(tc.remove_circuit, cid, "c07 right after send", destroy=1)
+                world.probe("circuits_removed_right_after_send")
             elif op == "burst":
                 pkt = me.call(anon.create_introduction_request, target.address)
                 for _ in range(120):
